@@ -790,7 +790,8 @@ class Prop:
     # ---- generation
     def gen_cases(self, rng, tier):
         q = tier == 'quick'
-        return gen_bfd(rng, 300 if q else 3000) + gen_rtr(rng, 600 if q else 6000) + gen_bgp(rng, 2500 if q else 25000, tier) + gen_fuzz(rng, 1500 if q else 30000) + gen_fuzz_seeded(rng, 2500 if q else 60000) + gen_fuzz_sweep(rng, tier)
+        from gen import c03_enum
+        return c03_enum.enum_cases() + gen_bfd(rng, 300 if q else 3000) + gen_rtr(rng, 600 if q else 6000) + gen_bgp(rng, 2500 if q else 25000, tier) + gen_fuzz(rng, 1500 if q else 30000) + gen_fuzz_seeded(rng, 2500 if q else 60000) + gen_fuzz_sweep(rng, tier)
 
     # ---- running
     def run_impl(self, cases, tier):
@@ -859,6 +860,9 @@ class Prop:
         return None
 
     def classify(self, c, obs):
+        return self._classify(c, obs) + (['class_' + c['cls']] if 'cls' in c else ['class_random_' + c['k']])
+
+    def _classify(self, c, obs):
         o = obs[0]
         if o == PANIC:
             return [c['k'] + '_panic']
